@@ -472,10 +472,13 @@ pub fn gen_workload(rng: &mut Rng, cfg: &GenCfg) -> Workload {
     while pool.len() < pool_n {
         // now and then an input whose byte length sits on a power of two (64 B .. 16 KiB): block-
         // wise or threshold-switched fast paths change behaviour exactly there
-        if cfg.long_inputs && rng.chance(1, 40) {
+        if cfg.long_inputs && rng.chance(1, 100) {
             let unit = gen_string(rng, &enabled);
             if !unit.is_empty() {
-                let target = (1usize << (6 + rng.usize_below(9))) + rng.usize_below(5) - 2;
+                // 64 B .. 1 KiB mostly, up to 4 KiB (quick) / 16 KiB (thorough) now and then: a call on
+                // a 16 KiB input costs about a millisecond, a thousand times the usual
+                let k = if rng.chance(3, 4) { 6 + rng.usize_below(5) } else { 6 + rng.usize_below(if cfg.max_threads > 4 { 9 } else { 7 }) };
+                let target = (1usize << k) + rng.usize_below(5) - 2;
                 let mut s = String::new();
                 while s.len() + unit.len() <= target {
                     s.push_str(&unit);
